@@ -46,10 +46,10 @@ type progAnalysis struct {
 	noprog  map[*ssa.Function]bool
 	// noprogNonNil: may return a non-nil result without progress (for functions whose nil result marks a previous error)
 	noprogNonNil map[*ssa.Function]bool
-	reads   map[*ssa.Function]bool // reads token state (transitively)
-	budget  int
-	blown   map[*ssa.Function]bool
-	eofName string
+	reads        map[*ssa.Function]bool // reads token state (transitively)
+	budget       int
+	blown        map[*ssa.Function]bool
+	eofName      string
 	// results of the final pass
 	cycles map[*ssa.Function]map[*ssa.BasicBlock][]string // header -> sample path descriptions
 	nEdges map[*ssa.Function]map[*ssa.Function]token.Pos  // calls reachable without progress
